@@ -87,8 +87,8 @@ def minList : List Nat → Option Nat
   | x :: xs => some (xs.foldl Nat.min x)
 
 mutual
-/-- `q.estimate_size(ixreader)`; `none` where Python raises (`min()` of an empty `And`,
-    `Sequence` or `Phrase`). -/
+/-- `q.estimate_size(ixreader)`; never `none` for these constructors since `And.estimate_size` of no
+    subqueries returns 0 (`Phrase` and `Sequence` estimate through `And`). -/
 def estimate (multi : Nat → Field → Text → Nat → Text → Bool)
     (bracket : Text → Option ((Nat → Bool) × Nat)) (rd : Reader) : Q → Option Nat
   | .null => some 0
@@ -99,10 +99,16 @@ def estimate (multi : Nat → Field → Text → Nat → Text → Bool)
   | .multi k f t key b => some (((btexts multi bracket rd (.multi k f t key b)).map (rd.df f)).sum)
   | .range f lo hi lx hx b c =>
     some (((btexts multi bracket rd (.range f lo hi lx hx b c)).map (rd.df f)).sum)
-  | .phrase f ws _ _ => minList (ws.map fun w => if rd.fields.contains f then rd.df f w else 0)
-  | .comp .and qs _ => (estimateList multi bracket rd qs).bind minList
+  | .phrase f ws _ _ =>
+    -- `Phrase.estimate_size` = `And(terms).estimate_size`, 0 for no words
+    if ws.isEmpty then some 0 else minList (ws.map fun w => if rd.fields.contains f then rd.df f w else 0)
+  | .comp .and qs _ =>
+    -- `And.estimate_size`: `if not self.subqueries: return 0` (fix: And.estimate_size of an And without subqueries)
+    if qs.isEmpty then some 0 else (estimateList multi bracket rd qs).bind minList
   | .comp _ qs _ => (estimateList multi bracket rd qs).map fun es => Nat.min es.sum rd.docCount
-  | .seq _ qs _ _ _ => (estimateList multi bracket rd qs).bind minList
+  | .seq _ qs _ _ _ =>
+    -- `Sequence.estimate_size` = `And(subqueries).estimate_size`
+    if qs.isEmpty then some 0 else (estimateList multi bracket rd qs).bind minList
   | .not _ _ => some rd.docCount
   | .bin .require _ b => estimate multi bracket rd b
   | .bin _ a b =>
